@@ -5,6 +5,8 @@
 (* Operand TEXT CLASSES (the harness spells them with register r1, the     *)
 (* enumeration key kx, the number 5, the label lab):                       *)
 (*   r  r2  [r]  [r+n]  [n]  [[n]]  r+n  key  num  lab  {n}                *)
+(*   hexa ($a, a hexadecimal number) chra ('a', a character) - a register  *)
+(*   named a is declared: these are numbers, not register references       *)
 (* An ALTERNATIVE is [id, ty, off, curly]: its identifier (which becomes   *)
 (* its operand code, so the emitted bytes name the choice), its type, for  *)
 (* indirect registers whether an offset is configured, for relative        *)
@@ -51,8 +53,8 @@ Acc(a, t) ==
       [] a.ty = "enumeration" -> t = "key"
       \* a numeric expression: numbers and labels (an enumeration key is, as text, an identifier, i.e. a label);
       \* NEVER a register name, alone or inside the expression
-      [] a.ty \in {"numeric", "address", "numeric_bytecode"} -> t \in {"num", "lab", "key"}
-      [] a.ty = "relative_address" -> IF a.curly THEN t = "{n}" ELSE t \in {"num", "lab", "key"}
+      [] a.ty \in {"numeric", "address", "numeric_bytecode"} -> t \in {"num", "lab", "key", "hexa", "chra"}
+      [] a.ty = "relative_address" -> IF a.curly THEN t = "{n}" ELSE t \in {"num", "lab", "key", "hexa", "chra"}
       [] OTHER -> FALSE
 
 \* stable sort of an operand set by rank: position of the alternative tried k-th
